@@ -842,10 +842,21 @@ constexpr auto operator>=(QLike q1, Quantity<U, R> q2) -> decltype(as_quantity(q
 }
 
 #if defined(__cpp_impl_three_way_comparison) && __cpp_impl_three_way_comparison >= 201907L
+namespace detail {
+struct ThreeWayCompareUnderlyingValues {
+    template <typename Q>
+    constexpr auto operator()(const Q &a, const Q &b) const {
+        return a.in(Q::unit) <=> b.in(Q::unit);
+    }
+};
+}  // namespace detail
+
+// Bring both inputs to their common type first, exactly as the other comparison operators do:
+// standard library types (such as `std::tuple`) build their own `operator<` out of this one, and
+// the answer must not depend on which of the two gets called.
 template <typename U1, typename R1, typename U2, typename R2>
 constexpr auto operator<=>(const Quantity<U1, R1> &lhs, const Quantity<U2, R2> &rhs) {
-    using U = CommonUnitT<U1, U2>;
-    return lhs.in(U{}) <=> rhs.in(U{});
+    return detail::using_common_type(lhs, rhs, detail::ThreeWayCompareUnderlyingValues{});
 }
 #endif
 
